@@ -1,0 +1,9 @@
+//go:build verif
+
+package rate
+
+// VerifForce sets the accumulated value of an estimator (bytes within its
+// time constant), so that a harness can pin the estimated rate.
+func (e *Estimator) VerifForce(value float64) {
+	e.value = value
+}
